@@ -48,6 +48,12 @@ def pt : R (Option (Int × Int)) := do
 def ptS : Option (Int × Int) → String | none => "0" | some (x, y) => s!"1 {x} {y}"
 
 def genOps3 : List (String × R String) := [
+  ("g:asm", do
+      -- the opcode table of the working tree is the generated one
+      let ts ← toks
+      let py := ts.map fun t => match t with
+        | Spec.Tok.op n => Py.PyTok.name n | Spec.Tok.int n => Py.PyTok.int n | Spec.Tok.data d => Py.PyTok.data d
+      pure (ans hex (Gen.script_to_bytes Gen.OP_CODES py))),
   ("g:rmd", do let b ← bytes; pure (ans hex (Gen.rmd_ripemd160 b))),
   ("g:schnorr_sign", do let m ← bytes; let k ← bytes; let a ← bytes; pure (ans hex (Gen.schnorr_sign Crypto.sha256 m k a))),
   ("g:schnorr_verify", do let m ← bytes; let k ← bytes; let s ← bytes; pure (ans (fun (b : Bool) => if b then "1" else "0") (Gen.schnorr_verify Crypto.sha256 m k s))),
